@@ -528,3 +528,132 @@ func constSetOf(p *Program, v ssa.Value) (set map[int64]bool, known bool) {
 	w(v, 0)
 	return set, known
 }
+
+// callEnv maps the parameters of a module callee to the argument values of one call, so that a value-shape rule can
+// follow a result of the callee back into the caller (one env per inlined call; outer is the caller's own env).
+type callEnv struct {
+	m     map[ssa.Value]ssa.Value
+	outer *callEnv
+}
+
+// resolve replaces a callee parameter by the caller's argument (repeatedly); it also returns the env in which the
+// resulting value lives.
+func (e *callEnv) resolve(v ssa.Value) (ssa.Value, *callEnv) {
+	for e != nil {
+		a, ok := e.m[v]
+		if !ok {
+			return v, e
+		}
+		v, e = a, e.outer
+	}
+	return v, nil
+}
+
+// calleeResults: if v is a result of a static call of a module function with a body (the call value itself, or an
+// Extract of its tuple), returns the corresponding result operand of every return statement and the env for them.
+func calleeResults(p *Program, v ssa.Value, outer *callEnv) ([]ssa.Value, *callEnv, bool) {
+	var call *ssa.Call
+	idx := 0
+	switch x := v.(type) {
+	case *ssa.Extract:
+		c, ok := x.Tuple.(*ssa.Call)
+		if !ok {
+			return nil, nil, false
+		}
+		call, idx = c, x.Index
+	case *ssa.Call:
+		call = x
+	default:
+		return nil, nil, false
+	}
+	g := call.Call.StaticCallee()
+	if g == nil || g.Blocks == nil || !p.InModule(g) || call.Call.IsInvoke() {
+		return nil, nil, false
+	}
+	depth := 0
+	for e := outer; e != nil; e = e.outer {
+		depth++
+	}
+	if depth > 3 {
+		return nil, nil, false
+	}
+	env := &callEnv{m: map[ssa.Value]ssa.Value{}, outer: outer}
+	for i, q := range g.Params {
+		if i < len(call.Call.Args) {
+			env.m[q] = call.Call.Args[i]
+		}
+	}
+	var out []ssa.Value
+	for _, r := range returnsOf(g) {
+		if idx >= len(r.Results) {
+			return nil, nil, false
+		}
+		out = append(out, r.Results[idx])
+	}
+	if len(out) == 0 {
+		return nil, nil, false
+	}
+	return out, env, true
+}
+
+// exclusiveCallees returns root together with every module function all of whose static call sites lie inside the
+// set and whose address is never taken: private helpers that exist only as pieces of root.
+func exclusiveCallees(p *Program, root *ssa.Function) map[*ssa.Function]bool {
+	set := map[*ssa.Function]bool{}
+	if root == nil {
+		return set
+	}
+	set[root] = true
+	type site struct{ caller *ssa.Function }
+	callers := map[*ssa.Function][]*ssa.Function{}
+	taken := map[*ssa.Function]bool{}
+	for _, top := range p.Funcs {
+		for _, f := range withAnons(top) {
+			eachInstr(f, func(in ssa.Instruction) {
+				if ci, ok := in.(ssa.CallInstruction); ok {
+					if g := ci.Common().StaticCallee(); g != nil {
+						owner := f
+						for owner.Parent() != nil {
+							owner = owner.Parent()
+						}
+						callers[g] = append(callers[g], owner)
+					}
+				}
+				var ops []*ssa.Value
+				for _, op := range in.Operands(ops) {
+					if op == nil || *op == nil {
+						continue
+					}
+					if g, ok := (*op).(*ssa.Function); ok {
+						if ci, isCall := in.(ssa.CallInstruction); isCall && ci.Common().Value == ssa.Value(g) {
+							continue
+						}
+						taken[g] = true
+					}
+				}
+			})
+		}
+	}
+	for changed := true; changed; {
+		changed = false
+		for g, cs := range callers {
+			if set[g] || taken[g] || !p.InModule(g) || g.Parent() != nil || len(cs) == 0 {
+				continue
+			}
+			if g.Object() != nil && g.Object().Exported() {
+				continue
+			}
+			all := true
+			for _, c := range cs {
+				if !set[c] {
+					all = false
+				}
+			}
+			if all {
+				set[g] = true
+				changed = true
+			}
+		}
+	}
+	return set
+}
